@@ -727,6 +727,11 @@ impl Xot {
                         span_info.extend_text_span(node_id.into(), text.into());
                     }
                     Cdata { text, span: _ } => {
+                        // an empty CDATA section contributes no character data:
+                        // it must not leave an empty text node behind
+                        if text.is_empty() {
+                            continue;
+                        }
                         // line ends are normalized in CDATA sections too
                         // https://www.w3.org/TR/xml/#sec-line-ends
                         let content = normalize_line_ends(text.as_str());
